@@ -190,12 +190,14 @@ HCIcnbit_decode(compinfo_t *info, int32 length, uint8 *buf)
     sign_byte     = nbit_info->nt_size - ((nbit_info->mask_off / 8) + 1);
     sign_mask     = mask_arr32[(nbit_info->mask_off % 8) + 1] ^ mask_arr32[nbit_info->mask_off % 8];
 
-    buf_size    = MIN(NBIT_BUF_SIZE, length);
-    buf_items   = buf_size / nbit_info->nt_size; /* compute # of items in buffer */
-    orig_length = length;                        /* save this for later */
-    while (length > 0) {                         /* decode until we have all the bytes */
-        if (nbit_info->buf_pos >= buf_size) {    /* re-fill buffer */
-            rbuf = (uint8 *)nbit_info->buffer;   /* get a ptr to the buffer */
+    orig_length = length; /* save this for later */
+    while (length > 0) {  /* decode until we have all the bytes */
+        /* Expand exactly what is still wanted, so that nothing expanded is left */
+        /* over (or missing) in the buffer when the next request has another size */
+        buf_size  = MIN(NBIT_BUF_SIZE, length);
+        buf_items = buf_size / nbit_info->nt_size; /* compute # of items in buffer */
+        {                                          /* re-fill buffer */
+            rbuf = (uint8 *)nbit_info->buffer;     /* get a ptr to the buffer */
 
             /* get initial copy of the mask */
             HDmemfill(rbuf, nbit_info->mask_buf, (uint32)nbit_info->nt_size, (uint32)buf_items);
